@@ -5,7 +5,7 @@ from bibtexparser.library import Library
 from bibtexparser.middlewares.names import MergeCoAuthors, SeparateCoAuthors, split_multiple_persons_names
 from bibtexparser.model import Entry, Field
 
-from .. import harness, refnames, tokens
+from .. import harness, libgen, refnames, tokens
 from ..compare import canon
 
 PROP = "C12"
@@ -100,7 +100,7 @@ def o_middleware(inp):
     if inp.get("name_fields") is not None:
         kw["name_fields"] = tuple(inp["name_fields"])
         nf = kw["name_fields"]
-    out = SeparateCoAuthors(**kw).transform(lib)
+    out = libgen.maybe_preuse(SeparateCoAuthors(**kw), inp["fields"]).transform(lib)
     e = out.blocks[0]
     cls = ["mw-custom-fields" if inp.get("name_fields") is not None else "mw-default-fields"]
     nontrivial = any(k in nf and "and" in v.lower() for k, v in inp["fields"])
@@ -110,7 +110,7 @@ def o_middleware(inp):
         exp = split_multiple_persons_names(v) if k in nf else v
         if f.value != exp or type(f.value) is not type(exp):
             return ((f"mw:separate:{'name' if k in nf else 'other'}-field", repr(f.value), repr(exp)), nontrivial, cls)
-    merged = MergeCoAuthors(**kw).transform(out)
+    merged = libgen.maybe_preuse(MergeCoAuthors(**kw), inp["fields"]).transform(out)
     e2 = merged.blocks[0]
     for f, (k, v) in zip(e2.fields, inp["fields"]):
         exp = " and ".join(split_multiple_persons_names(v)) if k in nf else v
@@ -135,6 +135,23 @@ def w_frames(acc, L, prefix):
         mid = "".join(t)
         for fr in FRAMES:
             acc.run("split", o_split, fr % mid, True)
+
+
+def w_after_name_parsing(acc, L, prefix):
+    """The splitter must not depend on what was called before it: same frame enumeration, interleaved with
+    calls to the name-part parser and the name middlewares (which live in the same module)."""
+    from bibtexparser.middlewares.names import parse_single_name_into_parts
+
+    for k, t in enumerate(tokens.seqs(tokens.SIGMA_A, L, prefix, tokens.SIGMA_A_SKIP)):
+        mid = "".join(t)
+        if k % 7 == 0:
+            try:
+                parse_single_name_into_parts("von~Last, Jr, " + mid.replace("{", "").replace("}", ""), strict=False)
+            except Exception:
+                pass
+        for fr in FRAMES[1::2]:
+            acc.run("split", o_split, fr % mid, True)
+    acc.classes["interleaved-with-name-parsing"] += 1
 
 
 def _strategies():
@@ -200,6 +217,7 @@ def run(chk):
     tasks = [("w_enum", t) for t in tokens.seq_tasks(tokens.SIGMA_A, max_len)]
     frame_len = 3 if quick else 4
     tasks += [("w_frames", t) for t in tokens.seq_tasks(tokens.SIGMA_A, frame_len, prefix_len=1)]
+    tasks += [("w_after_name_parsing", t) for t in tokens.seq_tasks(tokens.SIGMA_A, frame_len, prefix_len=1)]
     n_rand = 12000 if quick else 400000
     shards = 8 if quick else 32
     for s in range(shards):
@@ -218,5 +236,5 @@ def run(chk):
         "word-based reference splitter on brace-balanced input (reference validated on the 44 BibTeX-derived corpus "
         "cases first). Non-trivial: the input contains 'and' in any letter case (glued or not, any depth)."
     )
-    chk.required_classes = ["has-and", "escape-after-separator", "and-in-braces", "tie-and", "leading/trailing-and", "and-and", "unbalanced"]
+    chk.required_classes = ["has-and", "escape-after-separator", "and-in-braces", "tie-and", "leading/trailing-and", "and-and", "unbalanced", "interleaved-with-name-parsing"]
     chk.assumptions = ["the exact separator rule is asserted on brace-balanced strings only (as the property states); conservation and idempotence on every string"]
